@@ -324,6 +324,9 @@ func NewExpModel(R uint64) *ExpModel {
 	return &ExpModel{lists: map[uint64][]types.Hash256{}, R: R}
 }
 
+// Lists returns the non-empty lists the documented operations have produced so far.
+func (m *ExpModel) Lists() map[uint64][]types.Hash256 { return m.snapshot() }
+
 func (m *ExpModel) snapshot() map[uint64][]types.Hash256 {
 	c := map[uint64][]types.Hash256{}
 	for h, l := range m.lists {
